@@ -371,6 +371,36 @@ func (c *Ctx) c02Sweep(snap *load.FuncInfo) {
 		r.Check(factEq(g, v.ID, true, isV, isZero), "C02.N6", snap.Name(), "the built-in expiration replaces only an unset one", c.P.Pos(as.Pos()), "constant assigned under "+id.Name+" == 0",
 			"the compaction horizon uses the built-in expiration although one is configured (and leaves an unset one at zero): entries that sessions of the configured lifetime can still ask for are compacted away")
 	}
+	// ---------- N6c: the time an entry is judged by: its own UnixNano, the id only for entries from before UnixNano existed
+	if ts := c.MustFunc("robust.(*Message).Timestamp"); ts != nil && ts.Body() != nil {
+		ti := ts.Info()
+		tg := c.Graph(ts)
+		unF := c.P.Field("robust", "Message", "UnixNano")
+		isUN := func(e ast.Expr) bool {
+			se, ok := ast.Unparen(e).(*ast.SelectorExpr)
+			return ok && unF != nil && astx.FieldSel(ti, se) == unF
+		}
+		isZero := func(e ast.Expr) bool { z, ok := astx.ConstInt(ti, e); return ok && z == 0 }
+		nRet := 0
+		for _, rv := range tg.Returns() {
+			rs := rv.Node.(*ast.ReturnStmt)
+			if len(rs.Results) != 1 {
+				continue
+			}
+			nRet++
+			usesUN := mentionsField(ti, rs.Results[0], unF)
+			if usesUN {
+				r.Check(!factEq(tg, rv.ID, true, isUN, isZero), "C02.N6", ts.Name(), "the recorded time is used whenever there is one", c.P.Pos(rs.Pos()), "return of UnixNano not under UnixNano == 0",
+					"Timestamp() returns the recorded time only for entries that have none (test inverted): every entry with a recorded time is dated by its id, i.e. in 1970, so the compaction horizon passes everything and sessions are created with wrong times")
+			} else {
+				r.Check(factEq(tg, rv.ID, true, isUN, isZero), "C02.N6", ts.Name(), "the id stands in for the time only when none was recorded", c.P.Pos(rs.Pos()), "fallback under UnixNano == 0",
+					"Timestamp() dates an entry by its id although it carries a recorded time: the compaction horizon is compared with a time in 1970 and every entry is compacted at once")
+			}
+		}
+		if nRet < 1 {
+			r.Break("C02.N6: no return in robust.(*Message).Timestamp")
+		}
+	}
 	// ---------- N5e: Restore hands the stream to the decoder its first byte selects; the record loop ends at, and only at, EOF
 	if rs := c.MustFunc("main.(*FSM).Restore"); rs != nil && rs.Body() != nil {
 		ri := rs.Info()
